@@ -415,6 +415,21 @@ func c19Tighten(t *rapid.T, q *c19Query, rt *route.Route,
 				}
 				hops[len(hops)-1].Cipher = c
 			}
+		} else if c19Chance(t, "tPayCustom", 50) {
+			// Fill up with the destination's custom record instead
+			// of the metadata: the final hop's standard records stay
+			// small while its TLV stream crosses the 253-byte length
+			// prefix boundary (added after seeded change C19g).
+			cur := q.CustomLen
+			if cur < 0 {
+				// a record that was not there: type + length
+				cur, grow = 0, grow-8
+			}
+			if cur+grow < 0 {
+				return nil, ""
+			}
+			q2.CustomLen = cur + grow
+			mode = "payload_custom"
 		} else {
 			cur := q.MetaLen
 			if cur < 0 {
